@@ -37,12 +37,13 @@ import (
 
 // Fault kinds.
 const (
-	PRE      = "pre"          // the call is refused (Unavailable) before anything runs
-	OVERLOAD = "overload"     // the service's own 'currently overloaded' answer
-	MID      = "mid"          // the stream drops after the first update; the server side is cancelled
-	POST     = "post"         // the job wrote all its files, the client sees a dropped stream instead of EOF
-	DRAIN    = "drain"        // the worker's own context is cancelled while the job runs (the instance is draining) but its stream still reaches tier1: the job's modules see a cancelled context, the client receives the status the worker computes
-	MIDC     = "mid-canceled" // like mid, but the client receives the status the worker itself answers when it is cancelled (tier2's real error mapping: Canceled) while the tier1 request is alive
+	PRE      = "pre"                  // the call is refused (Unavailable) before anything runs
+	OVERLOAD = "overload"             // the service's own 'currently overloaded' answer
+	MID      = "mid"                  // the stream drops after the first update; the server side is cancelled
+	POST     = "post"                 // the job wrote all its files, the client sees a dropped stream instead of EOF
+	DRAIN    = "drain"                // the worker's own context is cancelled while the job runs (the instance is draining) but its stream still reaches tier1: the job's modules see a cancelled context, the client receives the status the worker computes
+	LASTBLK  = "cancel-at-last-block" // the worker's context is cancelled right after the job's last block: what is flushed with a background context (cached outputs) reaches storage, what is flushed with the request's context (the store partial) does not; the client receives the worker's status
+	MIDC     = "mid-canceled"         // like mid, but the client receives the status the worker itself answers when it is cancelled (tier2's real error mapping: Canceled) while the tier1 request is alive
 )
 
 type Fault struct {
@@ -170,6 +171,16 @@ func (c *fakeClient) ProcessRange(ctx context.Context, req *pbssinternal.Process
 			return nil
 		}
 		jobCfg := c.cfg
+		if kind == LASTBLK {
+			cp := *c.cfg
+			last := (req.SegmentNumber+1)*req.SegmentSize - 1
+			cp.Tier2AfterBlock = func(_ *pbssinternal.ProcessRangeRequest, s sysrun.Step) {
+				if s.Num == last {
+					cancel()
+				}
+			}
+			jobCfg = &cp
+		}
 		if kind == DRAIN {
 			cp := *c.cfg
 			first := true
@@ -187,7 +198,7 @@ func (c *fakeClient) ProcessRange(ctx context.Context, req *pbssinternal.Process
 		switch {
 		case kind == MID:
 			st.done <- status.Error(codes.Unavailable, "stream dropped: transport is closing")
-		case kind == DRAIN && grpcErr != nil:
+		case (kind == DRAIN || kind == LASTBLK) && grpcErr != nil:
 			st.done <- grpcErr
 		case kind == MIDC:
 			if grpcErr == nil {
@@ -385,6 +396,11 @@ func Run(ctx *core.Ctx) int {
 								return false
 							}
 						}
+						if (prog == "storemap" || prog == "twostages") && len(cur) < 2 {
+							if !rec(j, append(cur, Fault{Job: j, Attempt: att, Kind: LASTBLK})) {
+								return false
+							}
+						}
 						if prog == "storemap-ctx" && len(cur) < 2 {
 							if !rec(j, append(cur, Fault{Job: j, Attempt: att, Kind: DRAIN})) {
 								return false
@@ -440,7 +456,7 @@ func Run(ctx *core.Ctx) int {
 		jobsInfo[k] = fmt.Sprintf("%d jobs %v", len(b.units), b.units)
 	}
 	ctx.Cov["jobs_of_the_fault_free_runs"] = jobsInfo
-	ctx.Cov["rule"] = fmt.Sprintf("request [%d,%d), segment %d, final block %d, both modes, on %v: every multiset of <= %d transient faults over the (job, attempt) sites of the request x kinds {call refused, service overloaded, stream dropped mid-way with the server side cancelled (seen by the client as Unavailable, or - as first or second fault - as the worker's own Canceled status), stream dropped after the job wrote all its files}; and a deterministic module failure at every block 1..%d in every store and in the output map. The jobs are executed by the real work.RemoteWorker (retry loop, error classification) talking to a fake in-process transport whose server side is the real Tier2Service.processRange with the real tier2 error mapping. Oracle: transient -> the request completes with the fault-free stream; deterministic -> the error maps to invalid-argument through the real tier1 mapping, every delivered block is below the failing block, the delivered sequence is a prefix of the fault-free one, nothing after the error. Non-trivial: at least one injected fault site was reached.", start, stop, seg, final, progsList, maxFaults, stop-1)
+	ctx.Cov["rule"] = fmt.Sprintf("request [%d,%d), segment %d, final block %d, both modes, on %v: every multiset of <= %d transient faults over the (job, attempt) sites of the request x kinds {call refused, service overloaded, stream dropped mid-way with the server side cancelled (seen by the client as Unavailable, or - as first or second fault - as the worker's own Canceled status; or the worker cancelled right after the job's last block, between the flush of the cached outputs and the flush of the store partial; or cancelled while a module's host call is in flight), stream dropped after the job wrote all its files}; and a deterministic module failure at every block 1..%d in every store and in the output map. The jobs are executed by the real work.RemoteWorker (retry loop, error classification) talking to a fake in-process transport whose server side is the real Tier2Service.processRange with the real tier2 error mapping. Oracle: transient -> the request completes with the fault-free stream; deterministic -> the error maps to invalid-argument through the real tier1 mapping, every delivered block is below the failing block, the delivered sequence is a prefix of the fault-free one, nothing after the error. Non-trivial: at least one injected fault site was reached.", start, stop, seg, final, progsList, maxFaults, stop-1)
 	ctx.Assume = []string{
 		"the gRPC transport is replaced by an in-process stream (status errors are constructed as grpc-go would deliver them); bufconn was not needed",
 		"DeadlineExceeded is not in the transient alphabet: the worker gives up after three by design",
